@@ -498,6 +498,15 @@ func genCoreStyles(c *explore.C) Case {
 	r.StyleOrder = lexPerm(n, c.Choose("r.styleorder", fact(n)))
 	r.Radix = explore.Pick(c, "r.radix", 0, 3)
 	r.SecOrder = c.Choose("r.secorder", 3) // the event references a style: defined before it, after it, or (2 styles) in a second styles section
+	if r.SecOrder == 2 && len(d.Styles) >= 2 && len(d.StyleAttrs) >= 2 && c.Bool("r.secondformat") {
+		// the second styles section has a Format of its own with fewer columns: its styles carry those attributes only
+		r.SecondAttrs = 1
+		for i := 1; i < len(d.Styles); i++ {
+			for _, a := range d.StyleAttrs[1:] {
+				delete(d.Styles[i].Attrs, a)
+			}
+		}
+	}
 	return Case{Doc: d, Render: r}
 }
 
